@@ -89,6 +89,7 @@ struct World {
   long delivered[8] = {0, 0, 0, 0, 0, 0, 0, 0};  // per reporter generation: invocations since its installation
   int callobj = 0;     // object of the call in progress
   int callfn = 0;      // function of the outermost call in progress
+  int calla1 = 0, calla2 = 0;
   int throw_depth = 0; // nesting depth at which the exception in flight was thrown
   int armed_ok = 0;    // 1 + reporter generation the OK callback installs, 0 = none
   void fire_armed_ok();
